@@ -418,3 +418,8 @@ def run(ctx: Ctx, rep: Report, tier: str) -> None:
     from .c11 import skip_forwarding
 
     skip_forwarding(ctx, rep, rid="R04.5")
+
+
+# what the later rounds (seeding rounds 2-5, refactor twins, defect hunt) added to what the check decides
+LATER_ROUNDS = "the ACL keeps its own items (a removal done on a flattened copy is reported: known finding K7)"
+EXPLANATION = EXPLANATION.replace(" Does not decide", " Later rounds added: " + LATER_ROUNDS + ". Does not decide", 1) if " Does not decide" in EXPLANATION else EXPLANATION + " Later rounds added: " + LATER_ROUNDS + "."
